@@ -3,7 +3,7 @@
 import json, sys, os
 V = os.path.dirname(os.path.dirname(os.path.abspath(__file__)))
 HOOK_COMMITS = ["cd80d8c"]
-FIX_COMMITS = ["19db2e0", "612f831", "571a0e7", "96684bc", "f012a8c", "eccf4bb"]
+FIX_COMMITS = ["19db2e0", "612f831", "571a0e7", "96684bc", "f012a8c", "eccf4bb", "14aaa4b", "54e5379"]
 SIM_NOTE = ("Trusted base: the harness simulator (virtual clock + deterministic rand via the verif-hooks feature, simulated "
             "network whose per-packet fates are a pure function of (seed, link, per-link counter), strict request-executing game, "
             "30-line reference model of the delayed input stream) and proptest 1.11. Absence is not established: the claim is "
@@ -26,6 +26,8 @@ CHECKS = {
    text="Generated host/spectator scenarios (slow and pausing spectators, all catch-up settings, loss/reorder, a player dying on the host side) compare every frame the spectator advanced with the host's final timeline (values and Disconnected flags), check contiguity, 'never beyond host.confirmed_frame()', the per-call step rule from frames_behind_host(), that errors never move the cursor, and that players' confirmed inputs are identical with and without spectators."),
  "C07": dict(cat="fault_enumeration", ref="§6 C07", technique="enumeration of the moment of death x amount of in-flight input over 288 base configurations; exact event-instant predictor from poll instants and packet deliveries; final-timeline oracle",
    text="Fault enumeration over the moment a remote dies (every tick of a 120-tick window in thorough, every 5th in quick) x how much of its last traffic still arrives x 288 configurations (rollback/lockstep, sparse, 1-2 players per side, spectator, latency, four timeout settings), plus explicit disconnect_player calls. The NetworkInterrupted/Disconnected instants and multiplicity are predicted exactly from the survivor's poll instants and the packet deliveries recorded by the simulated network; the survivor's final timeline must carry real inputs up to the last received frame and default/Disconnected afterwards, and its spectator must see the same."),
+ "C08": dict(cat="exploration", ref="§6 C08", technique="property-based packet forging inside live simulated sessions with a metamorphic twin (same run without the forged packets), exhaustive short-payload sweep, regression replays of two repaired defects",
+   text="1-24 forged packets (wrong status count, negative start frame, garbage and structured-malformed payloads, wrong-size frames, unknown source, foreign magic on current packets / on a stale session's first packet / on any message class) are injected at arbitrary ticks of the handshake, running and after-disconnect states of 2-3 peer sessions; there must be no panic and the delivered inputs, states, per-address events and disconnect flags must equal those of the twin run; lossy variants check that valid traffic keeps being processed (C01/C03 clauses, serial replay); every payload of length <= 2 (quick) / <= 3 (thorough) is injected into a live endpoint. Allocation/abort behaviour of arbitrary payloads is decided by C14's supervised sweeps of the same decode entry point."),
  "C09": dict(cat="exploration", ref="§6 C09", technique="property-based testing (false-alarm half over C01's space with detection on) and enumeration of divergence frame x interval (detection half) with a deterministically diverging game",
    text="False-alarm half: any DesyncDetected in thousands of generated deterministic-game scenarios (intervals 1..=12, sparse on/off, loss, rollbacks) is a violation. Detection half: for every interval 1..=12 and divergence frame 1..=200 one peer's state really diverges; every peer of a differing pair must report a frame in [F, F+2*interval] carrying the two checksums the games really saved, and nothing before F or between agreeing peers."),
  "C10": dict(cat="fault_enumeration", ref="§6 C10", technique="enumeration of the moment of death x split of the dying peer's last packets between survivors in 3-4 peer sessions; cross-survivor agreement oracle after a settle phase; known finding keyed on an exact signature",
